@@ -664,7 +664,25 @@ func (c *SpecCtx) call(e *ast.CallExpr) *Val {
 			if at.isFalse() {
 				return boolV(TTrue)
 			}
-			return boolV(Implies(at, intAsBool(c.eval(e.Args[1]).T)))
+			// the consequent may name locals that do not exist on a path on which the antecedent
+			// is false (an early return): such a path satisfies the implication
+			var cons *Term
+			func() {
+				defer func() {
+					if r := recover(); r != nil {
+						if _, isSpec := r.(specError); isSpec && c.x.sess != nil && !c.x.feasible(c.st, at) {
+							cons = nil
+							return
+						}
+						panic(r)
+					}
+				}()
+				cons = intAsBool(c.eval(e.Args[1]).T)
+			}()
+			if cons == nil {
+				return boolV(TTrue)
+			}
+			return boolV(Implies(at, cons))
 		case "iff":
 			return boolV(Eq(c.eval(e.Args[0]).T, c.eval(e.Args[1]).T))
 		case "ite":
